@@ -303,6 +303,57 @@ def run(chk):
 
     # ---- 4. ovnidump decodes every listed event (engine of its own)
     from checks import c18_dump
+    # neighbours: events of different models that share the category and value bytes, dumped next to each other in
+    # both orders (a listed one must keep its own description, an unlisted one must stay UNKNOWN)
+    by_cv = {}
+    for e in tables["evdecl"]:
+        by_cv.setdefault(e["sig"][1:3], []).append(e)
+    seqs = []
+    for cv, lst in sorted(by_cv.items()):
+        for e in lst:
+            others = [o for o in lst if o["model"] != e["model"]]
+            ghosts = [mids[d] + cv for d in sorted(mids) if d != e["model"] and not cat.listed(d, mids[d] + cv)
+                      and not (d == "ovni" and cv[0] in "BU")]
+            r_ = rng.fork("adj" + e["sig"][:3])
+            for o in others[:2]:
+                seqs.append([("L", e), ("L", o), ("L", e)])
+            for g in r_.shuffle(ghosts)[:chk.budget(1, 4)]:
+                seqs.append([("L", e), ("U", g), ("L", e)])
+    flat = []
+    for sq in seqs:
+        for kind, x in sq:
+            if kind == "L":
+                pl = payload_of(x["sig"])
+                flat.append({"mcv": x["sig"][:3], "payload": b"" if isinstance(pl, Jumbo) else pl, "jumbo": bytes(pl) if isinstance(pl, Jumbo) else None,
+                             "kind": "L", "decl": x})
+            else:
+                flat.append({"mcv": x, "payload": b"", "jumbo": None, "kind": "U"})
+    CHN = 240      # multiple of 3: sequences are never split
+    chunks = [flat[i:i + CHN] for i in range(0, len(flat), CHN)]
+    res = trace.pmap(lambda ch: c18_dump.run_chunk(build, ch), chunks)
+    nadj = 0
+    for ch, rr in zip(chunks, res):
+        if isinstance(rr, str):
+            chk.violation("dump-neighbours-fails", "ovnidump fails on a loadable stream of listed and unlisted events: %s" % rr[:300],
+                          {"events": [c["mcv"] for c in ch][:60]})
+            continue
+        for i, (c, text) in enumerate(zip(ch, rr)):
+            nadj += 1
+            chk.case(("adj", c["mcv"], ch[i - 1]["mcv"] if i % 3 else None))
+            prev = ch[i - 1]["mcv"] if i % 3 else None
+            if c["kind"] == "U":
+                if text != b"UNKNOWN":
+                    chk.violation("dump-describes-unlisted:" + c["mcv"], "ovnidump prints a description for %s, which no model lists, right after %s: %r" % (c["mcv"], prev, text[:120]),
+                                  {"events": [prev, c["mcv"]], "how": "one stream with these two events (no payload for the second), run ovnidump"})
+            else:
+                d = c["decl"]
+                mcv_, isj, args = c18_dump.py_sig(d["sig"])
+                vals = [VALUES.get(n, 1) if t != "str" else (VALUES.get(n, b"x") if isinstance(VALUES.get(n, b"x"), bytes) else b"x") for (t, n) in args]
+                want, _ = c18_dump.py_text(d["desc"], args, vals)
+                if text != want:
+                    chk.violation("dump-neighbour-text:" + c["mcv"], "ovnidump describes %s as %r right after %s; its description with the values substituted is %r" % (
+                        c["mcv"], text[:160], prev, want[:160]), {"events": [prev, c["mcv"]], "payload_hex": (c["jumbo"] if c["jumbo"] is not None else c["payload"]).hex()})
+    chk.count("dump:neighbour-events", nadj)
     if True:
         dres = c18_dump.run_dump(chk, build, tables)
         chk.coverage["ovnidump_clause"] = dres["counts"]
